@@ -6,18 +6,16 @@ import (
 
 var reDenom = regexp.MustCompile(`^[a-zA-Z][a-zA-Z0-9/:._-]{2,127}$`)
 
-func registerTime(p *Program)       {}
-func registerStringsPkg(p *Program) {}
-func registerEnv(p *Program)        {}
-func registerMisc(p *Program)       {}
-
-type Env struct{}
-
-func newEnv(x *Exec) *Env { return &Env{} }
-
-func (x *Exec) zzverifEnv(name string, c *CallCtx) (Value, bool) { return nil, false }
-
-func (x *Exec) nondetTime(label string) Value {
-	x.Unsupported("nondet time")
-	return nil
+func registerMisc(p *Program) {
+	p.Intr["net/url.ParseRequestURI"] = func(x *Exec, c *CallCtx) Value {
+		s := c.Args[0].(StrV)
+		t := x.strAtomTerm(s)
+		if t == nil {
+			x.Unsupported("url.ParseRequestURI on a content string")
+		}
+		if x.Branch(x.B.App("valid_request_uri", 0, t)) {
+			return TupleV{PtrV{Obj: x.newObj(OpaqueV{Kind: "url"}, "url")}, IfaceV{}}
+		}
+		return TupleV{PtrV{}, x.newErr("url", "invalid URI for request")}
+	}
 }
